@@ -66,6 +66,42 @@ def tables_c17(out, notes):
         raise Refuse(f"FlowRowModel no longer has the uuid fields node_uuid/obj_id: {uuid_fields}")
     out.append(f"Definition frm_uuid_fields : list str := {coq_list(coq_str(f) for f in uuid_fields)}.")
 
+    # ---- probe: which argument of a has_group case reaches the edge condition when the router's
+    # operand is not @contact.groups (finding has_group-case-outside-group-split and its repair)
+    from rpft.rapidpro.models.routers import RouterCategory, SwitchRouter
+
+    def probe_case(operand, args):
+        cat = RouterCategory("G", "dest-uuid")
+        r = SwitchRouter(operand, cases=[RouterCase("has_group", list(args), cat.uuid)], categories=[cat])
+        try:
+            pairs = r.get_exit_edge_pairs("row")
+        except IndexError:
+            return "IndexError"
+        conds = [e.condition.value for ex, e in pairs if ex is cat.exit]
+        if len(conds) != 1:
+            raise Refuse(f"get_exit_edge_pairs gives {len(conds)} edges for one has_group case")
+        return conds[0]
+
+    try:
+        two = [probe_case(op, ["g-uuid", "g name"]) for op in ("@input.text", "@child.run.status", "@fields.x")]
+        one = [probe_case(op, ["g-uuid"]) for op in ("@input.text", "@child.run.status", "@fields.x")]
+        split2, split1 = probe_case("@contact.groups", ["g-uuid", "g name"]), probe_case("@contact.groups", ["g-uuid"])
+    except Refuse:
+        raise
+    except Exception as e:
+        raise Refuse(f"cannot probe SwitchRouter.get_exit_edge_pairs on a has_group case: {type(e).__name__}: {e}")
+    if (split2, split1) != ("g name", "IndexError"):
+        raise Refuse(f"group split: has_group case exported as {split2!r} / {split1!r} (the model writes arguments[1])")
+    if two == ["g name"] * 3 and one == ["IndexError"] * 3:
+        by_name = True       # repaired: the group name for every has_group case, as in a group split
+    elif two == ["g-uuid"] * 3 and one == ["g-uuid"] * 3:
+        by_name = False      # arguments[0], the group uuid, outside group splits
+    else:
+        raise Refuse(f"has_group case outside a group split exported as {two!r} (two arguments) / {one!r} (one argument): "
+                     "a behaviour the C17 model has no mirror for")
+    out.append(f"Definition has_group_case_by_name : bool := {'true' if by_name else 'false'}.")
+    notes.append(f"C17: probe has_group_case_by_name={by_name}")
+
     # ---- RouterCase.NO_ARGS_TESTS, short_types
     na = RouterCase.NO_ARGS_TESTS
     if not all(isinstance(x, str) for x in na):
